@@ -501,7 +501,7 @@ class Element:
             return None
         elif len(results) > 1 and strict:
             raise LookupError(
-                "Path %r matched multiple elements; single result expected." % path
+                "Path %r matched multiple elements; single result expected." % (path,)
             )
         else:
             return results[0]
